@@ -4,21 +4,9 @@
 //!   rv replay <property> <replay.json>
 //!   rv list
 
-mod der;
-mod findings;
-mod forge;
-mod gen;
-mod keys;
-mod mk;
-mod model;
-mod pemstrict;
-mod props;
-mod runner;
-mod spec;
-mod validate;
-mod x509;
 
-use runner::{RunCfg, Tier};
+use rv::runner::{self, RunCfg, Tier};
+use rv::props;
 
 fn usage() -> ! {
 	eprintln!("usage: rv run <id> [--tier quick|thorough] [--seed N] [--sub NAME] [--scale F] [--frag PATH] | rv replay <id> <file> | rv list");
@@ -33,6 +21,7 @@ fn main() {
 	runner::install_quiet_panic_hook();
 	match args[0].as_str() {
 		"c15-child" => props::c15::child_main(),
+		"c16-child" => props::c16::child_main(),
 		"list" => {
 			for p in props::ALL {
 				println!("{p}");
